@@ -17,6 +17,8 @@ func TestEngine(t *testing.T) {
 		runReplay(t)
 	case "shrink":
 		runShrink(t)
+	case "race":
+		runRaceWorker(t)
 	case "det":
 		runDeterminism(t)
 	default:
